@@ -180,6 +180,37 @@ Definition ib_step (st : ibuilder) (op : in_op) : ibuilder :=
   | InPlutus h o rid => ib_add_script h o (WPlutus rid) st
   end.
 
+(* add_regular_utxo / add_native_script_utxo / add_plutus_script_utxo (tx_inputs_builder.rs 44-106): the address of the UTxO decides
+   whether the call is accepted.  Regular: Malformed and Reward addresses are refused, then (add_regular_input_extended) a Base /
+   Enterprise / Pointer address must have a KEY payment credential, a Byron address gives a bootstrap input.  Script entry points:
+   Malformed, Reward and Byron addresses are refused and the payment credential must be a SCRIPT hash (it is not compared with
+   the witness's script hash: the input is registered under the witness's hash). *)
+Inductive addr_kind := ABaseKey | ABaseScript | AEntKey | AEntScript | APtrKey | APtrScript | AReward | AByron | AMalformed.
+Definition addr_payment_script (a : addr_kind) : option bool :=
+  match a with
+  | ABaseKey | AEntKey | APtrKey => Some false
+  | ABaseScript | AEntScript | APtrScript => Some true
+  | AReward | AByron | AMalformed => None
+  end.
+Inductive utxo_entry := URegular | UNative | UPlutus.
+Definition utxo_effect (e : utxo_entry) (a : addr_kind) (h : bytes) (o : outpoint) (rid : N) : option in_op :=
+  match e with
+  | URegular =>
+      match a with
+      | AMalformed | AReward => None
+      | AByron => Some (InKey o)
+      | _ => match addr_payment_script a with Some false => Some (InKey o) | _ => None end
+      end
+  | UNative | UPlutus =>
+      match a with
+      | AMalformed | AReward | AByron => None
+      | _ => match addr_payment_script a with
+             | Some false => None
+             | _ => Some (match e with UPlutus => InPlutus h o rid | _ => InNative h o end)
+             end
+      end
+  end.
+
 (* script_hash_index_map of get_plutus_input_scripts: (current script hash, position among ALL inputs), kept for script inputs *)
 Fixpoint ib_index_map (i : N) (l : list (outpoint * option bytes)) : list (outpoint * (bytes * N)) :=
   match l with
@@ -317,6 +348,7 @@ Definition txb_empty : txb := mkTxb ib_empty ib_empty [] [] [] [] [] [] false.
 Inductive op :=
 | OpIn (o : in_op) | OpCol (o : in_op) | OpMint (m : mint_op) | OpCert (c : wop cert)
 | OpWd (w : wop racct) | OpVote (v : wop voter) | OpProp (p : wop proposal)
+| OpInU (col : bool) (e : utxo_entry) (a : addr_kind) (h : bytes) (o : outpoint) (rid : N)   (* a *_utxo entry point, on the inputs or the collateral *)
 | OpCalc.      (* calc_script_data_hash in the middle of the history (the harness calls it once more before building) *)
 
 (* PlutusWitnesses::collect, redeemer part: the first occurrence of each distinct redeemer, in order *)
@@ -352,6 +384,13 @@ Definition step (st : txb) (o : op) : txb * bool :=
                 (mkTxb (t_inputs st) (t_collateral st) (t_mint st) (t_certs st) (t_wdrl st) x (t_props st) (t_mint_amt st) (t_hash st), ok)
   | OpProp p => let (x, ok) := keep (prop_step (t_props st) p) (t_props st) in
                 (mkTxb (t_inputs st) (t_collateral st) (t_mint st) (t_certs st) (t_wdrl st) (t_votes st) x (t_mint_amt st) (t_hash st), ok)
+  | OpInU col e a h o rid =>
+      match utxo_effect e a h o rid with
+      | Some i => if col
+                  then (mkTxb (t_inputs st) (ib_step (t_collateral st) i) (t_mint st) (t_certs st) (t_wdrl st) (t_votes st) (t_props st) (t_mint_amt st) (t_hash st), true)
+                  else (mkTxb (ib_step (t_inputs st) i) (t_collateral st) (t_mint st) (t_certs st) (t_wdrl st) (t_votes st) (t_props st) (t_mint_amt st) (t_hash st), true)
+      | None => (st, false)
+      end
   | OpCalc => (mkTxb (t_inputs st) (t_collateral st) (t_mint st) (t_certs st) (t_wdrl st) (t_votes st) (t_props st) (t_mint_amt st)
                      (has_script_data st), true)      (* since /repo fix C09-noop-calc-keeps-hash: a calc that finds nothing to hash removes the hash an earlier calc stored (every hash here is calc's) *)
   end.
